@@ -1,6 +1,6 @@
 """C10 - auto-selected amplifiers are allowed, capable and the quietest capable choice.
 
-Complete enumeration of equipment libraries (every subset of size 1-3 of 9 amplifier archetypes, each archetype in two
+Complete enumeration of equipment libraries (every subset of size 1-3 of 11 amplifier archetypes, each archetype in two
 noise-figure variants under the SAME name) x deviation-bounded enumeration of the operating point (span loss, design
 power, channel count, restriction source, fibre loss coefficient incl. per-frequency tables, site graph).
 Real designed_network; the required (gain, power) of every auto-selected amplifier is recomputed with C09's budget
@@ -24,6 +24,12 @@ ARCH = {
     'A_L': dict(type_def='variable_gain', gain_flatmax=26, gain_min=15, p_max=21, nf_min=4.8, nf_max=8, allowed_for_design=True,
                 f_min=186.5e12, f_max=190.1e12),
     'A_noisy': dict(type_def='variable_gain', gain_flatmax=26, gain_min=15, p_max=23, nf_min=8, nf_max=12, allowed_for_design=True),
+    # covers the start of the C band only: permitted when the design band ends below 195 THz, never for the full band
+    'A_hicut': dict(type_def='variable_gain', gain_flatmax=26, gain_min=15, p_max=21, nf_min=4.7, nf_max=8, allowed_for_design=True,
+                    f_min=191.2e12, f_max=195.0e12),
+    # noise figure between A_low's at its flat-gain limit (7.0 dB) and in its extended-gain window (6.93-6.98 dB): which of
+    # the two is quieter depends on evaluating each model at the required gain
+    'A_fix697': dict(type_def='fixed_gain', gain_flatmax=19, gain_min=18, p_max=21, nf0=6.97, allowed_for_design=True),
     'A_raman': dict(type_def='dual_stage', raman=True, gain_min=25, preamp_variety='R_4pumps', booster_variety='R_boost',
                     allowed_for_design=True),
 }
